@@ -799,8 +799,9 @@ class Spec:
         wt = width(ret_ty)
         if name == "verify":
             return (), T.not_(argbits)
-        if self.interpret and name in J.MODELS:
-            out = J.MODELS[name](argbits)
+        model = J.model_for(name, self.interpret)
+        if model is not None:
+            out = model(argbits)
             return from_bits(ret_ty, out), T.false()
         out = T.uf(self.uf_prefix + name, argbits, wt) if wt else None
         fails = T.false() if name in J.NEVER_FAILS else T.uf(self.uf_prefix + "fails_" + name, argbits, 1)
@@ -859,6 +860,8 @@ class Spec:
             return v, T.or_(fails, f)
         if isinstance(e, JetCall):
             vals, fails = self.eval_args(e.args, env)
+            if "jet_swap_args" in self.mut and len(vals) >= 2 and e.args[0].ty == e.args[1].ty:
+                vals[0], vals[1] = vals[1], vals[0]  # canary: arguments reach the jet in the wrong order
             bits = T.cat([to_bits(a.ty, v) for a, v in zip(e.args, vals)])
             v, f = self.jet(e.jet, bits, e.ty)
             return v, T.or_(fails, f)
